@@ -1178,6 +1178,9 @@ fn ids<E: SElem>(v: &[E]) -> Vec<u64> {
     v.iter().map(|e| e.id()).collect()
 }
 
+/// pushed onto every concat result (see `exec_act`); no list element has this id
+const CONCAT_MARK: u64 = 777_777;
+
 fn exec_act<E: SElem>(h: &mut Handles<E>, act: Act, fns: &Option<Arc<SFns<E>>>) -> Res {
     let f = || fns.as_ref().expect("script functions compiled");
     match act {
@@ -1224,7 +1227,13 @@ fn exec_act<E: SElem>(h: &mut Handles<E>, act: Act, fns: &Option<Arc<SFns<E>>>) 
             } else {
                 in_op(|| h.h(x).concat(h.h(y)))
             };
-            // the result list is private: reading and dropping it is harness work
+            // "a new list": a marker pushed onto the result must show up in the result and
+            // nowhere else. If the result is an alias of an operand (e.g. a shortcut for an empty
+            // operand) the push and the read are operations on a shared list: they go through the
+            // scheduler like any other, and the operand's final contents give the alias away.
+            let m = E::mk(CONCAT_MARK);
+            in_op(|| c.push(m));
+            // reading and dropping the result list is harness work
             internal(|| Res::Seq(ids(&c.to_vec())))
         }
         Act::Eq { x, y, script: false } => Res::Bool(in_op(|| h.h(x) == h.h(y))),
@@ -1971,6 +1980,8 @@ fn model_apply(st: &mut Model, act: &Act) -> Res {
         Act::Concat { x, y, .. } => {
             let mut v = st[x].clone();
             v.extend_from_slice(&st[y]);
+            // the marker the harness pushes onto the (new) result list
+            v.push(CONCAT_MARK);
             Res::Seq(v)
         }
         Act::Eq { x, y, .. } => Res::Bool(x == y || st[x] == st[y]),
